@@ -4112,3 +4112,175 @@ func ruleLineFillLength(r *Run, rule string) {
 		}
 	}
 }
+
+// ruleIdleHelpersTruthful (R09.12 / R07.31): the bool helpers of the CPU that the drain loops
+// consult ("are the execute units empty?") are truthful in the direction that matters: when
+// the helper answers true, every component whose emptiness it tests did test empty (the same
+// implication R09.4 demands of the completion predicate).
+func ruleIdleHelpersTruthful(r *Run, rule string) {
+	w := r.W
+	for _, v := range variants(w) {
+		if v.pkg == nil || !v.pipelined() || v.cpu == nil {
+			continue
+		}
+		info := v.info
+		memo := map[*ast.FuncDecl]map[*types.Var]bool{}
+		for i := 0; i < v.cpu.NumMethods(); i++ {
+			m := v.cpu.Method(i)
+			sig := m.Type().(*types.Signature)
+			if sig.Params().Len() != 0 || sig.Results().Len() != 1 || typeName(sig.Results().At(0).Type()) != "bool" {
+				continue
+			}
+			fd, _ := w.FuncDecl(m)
+			if fd == nil || fd.Body == nil || fd == v.isEmpty {
+				continue
+			}
+			// the components whose emptiness the body tests
+			tested := map[*types.Var]string{}
+			ast.Inspect(fd.Body, func(n ast.Node) bool {
+				switch x := n.(type) {
+				case *ast.RangeStmt:
+					if f := v.cpuFieldOf(x.X); f != nil {
+						has := false
+						ast.Inspect(x.Body, func(k ast.Node) bool {
+							if c, ok := k.(*ast.CallExpr); ok {
+								if s, ok := c.Fun.(*ast.SelectorExpr); ok && strings.EqualFold(s.Sel.Name, "isEmpty") {
+									has = true
+								}
+							}
+							return true
+						})
+						if has {
+							tested[f.obj] = f.name
+						}
+					}
+				case *ast.CallExpr:
+					if s, ok := x.Fun.(*ast.SelectorExpr); ok && strings.EqualFold(s.Sel.Name, "isEmpty") {
+						if f := v.cpuFieldOf(s.X); f != nil {
+							tested[f.obj] = f.name
+						}
+					}
+				}
+				return true
+			})
+			if len(tested) == 0 {
+				continue
+			}
+			_ = info
+			g := idleGuarantee(w, v, fd, memo, 0)
+			var names []string
+			for fv, nm := range tested {
+				if !g[fv] {
+					names = append(names, nm)
+				}
+			}
+			sort.Strings(names)
+			r.check(len(names) == 0, rule, fmt.Sprintf("%s.(CPU).%s:truthful", v.rel, m.Name()), fd.Pos(), "when the helper answers true every component it tests did test empty (not implied for: %v)", names)
+		}
+	}
+}
+
+// ruleProbeTruthful (R05.21): a cache probe — a function that looks every byte address of an
+// access up in a cache and returns (bytes, …, found) — answers found = true only after every
+// byte was found: inside the branch taken when a byte is ABSENT every return carries found =
+// false, and the return after the loop carries found = true together with the bytes collected.
+func ruleProbeTruthful(r *Run, rule string) {
+	w := r.W
+	for _, v := range variants(w) {
+		if v.pkg == nil {
+			continue
+		}
+		info := v.info
+		for _, f := range v.pkg.Syntax {
+			for _, d := range f.Decls {
+				fd, ok := d.(*ast.FuncDecl)
+				if !ok || fd.Body == nil || fd.Type.Results == nil {
+					continue
+				}
+				var rts []types.Type
+				for _, fl := range fd.Type.Results.List {
+					k := len(fl.Names)
+					if k == 0 {
+						k = 1
+					}
+					for i := 0; i < k; i++ {
+						rts = append(rts, info.TypeOf(fl.Type))
+					}
+				}
+				if len(rts) < 2 || typeName(rts[0]) != "[]int8" || typeName(rts[len(rts)-1]) != "bool" {
+					continue
+				}
+				// a range loop whose body probes a cache: v, exists := X.Get(addr)
+				var loop *ast.RangeStmt
+				var existsObj types.Object
+				ast.Inspect(fd.Body, func(m ast.Node) bool {
+					rs, ok := m.(*ast.RangeStmt)
+					if !ok || loop != nil {
+						return true
+					}
+					for _, st := range rs.Body.List {
+						if as, ok := st.(*ast.AssignStmt); ok && len(as.Lhs) == 2 && len(as.Rhs) == 1 {
+							if call, ok := as.Rhs[0].(*ast.CallExpr); ok {
+								if fn, ok := typeutil.Callee(info, call).(*types.Func); ok && fn.Name() == "Get" {
+									if sig := fn.Type().(*types.Signature); sig.Recv() != nil && isCompType(sig.Recv().Type(), "LRUCache") {
+										loop = rs
+										if id, ok := as.Lhs[1].(*ast.Ident); ok {
+											existsObj = info.Defs[id]
+										}
+									}
+								}
+							}
+						}
+					}
+					return true
+				})
+				if loop == nil || existsObj == nil {
+					continue
+				}
+				lastIs := func(rs *ast.ReturnStmt, val string) bool {
+					if len(rs.Results) != len(rts) {
+						return false
+					}
+					tv := info.Types[rs.Results[len(rs.Results)-1]]
+					return tv.Value != nil && tv.Value.String() == val
+				}
+				absentOK, absentSeen := true, false
+				ast.Inspect(loop.Body, func(m ast.Node) bool {
+					is, ok := m.(*ast.IfStmt)
+					if !ok {
+						return true
+					}
+					u, ok := ast.Unparen(is.Cond).(*ast.UnaryExpr)
+					if !ok || u.Op != token.NOT {
+						return true
+					}
+					if id, ok := ast.Unparen(u.X).(*ast.Ident); !ok || info.Uses[id] != existsObj {
+						return true
+					}
+					absentSeen = true
+					ast.Inspect(is.Body, func(k ast.Node) bool {
+						if rs, ok := k.(*ast.ReturnStmt); ok && !lastIs(rs, "false") {
+							absentOK = false
+						}
+						return true
+					})
+					if !terminates(is.Body.List) {
+						absentOK = false
+					}
+					return false
+				})
+				finalOK := false
+				for _, st := range fd.Body.List {
+					if st.Pos() > loop.End() {
+						if rs, ok := st.(*ast.ReturnStmt); ok && lastIs(rs, "true") {
+							if _, isNil := ast.Unparen(rs.Results[0]).(*ast.Ident); isNil && !info.Types[rs.Results[0]].IsNil() {
+								finalOK = true
+							}
+						}
+					}
+				}
+				r.check(absentSeen && absentOK && finalOK, rule, fmt.Sprintf("%s.%s:probe-truthful", v.rel, declName(fd)), fd.Pos(), "the probe leaves with found = false as soon as a byte is absent (%v) and answers found = true with the collected bytes only after the loop (%v)", absentSeen && absentOK, finalOK)
+			}
+		}
+	}
+}
